@@ -152,6 +152,10 @@ class ChainBuild(Suite):
             dict(classes=[K(0, 'Features'), K(1, 'User', meta_inputs=[{'name': 'features'}])],
                  files={'t.json': {'tasks': ['@M.Features']}, 'u.json': {'tasks': ['@M.User']}},
                  base={'name': 'main', 'data': {'uses': ['t.json as pretrain', 'u.json as train']}}, context=None),
+            # an import string names exactly one class, also when another class of the module has that name as a prefix
+            dict(classes=[K(0, 'Ab'), K(1, 'A'), K(2, 'Abc')], files={}, base={'name': 'm', 'data': {'tasks': ['@M.A']}}, context=None),
+            dict(classes=[K(0, 'Ab'), K(1, 'A'), K(2, 'Abc')], files={},
+                 base={'name': 'm', 'data': {'tasks': ['@M.*'], 'excluded_tasks': ['@M.A']}}, context=None),
             # a pattern input matches whole names only: ~x takes x, not xn (the model knows literal names and `prefix.*`)
             dict(classes=[dict(K(0, 'X'), name='x'), dict(K(1, 'Xn'), name='xn'), dict(K(2, 'Xnn'), name='xnn'),
                           dict(K(4, 'Merge', meta_inputs=[{'name': '~x'}, {'name': '~~xn'}]), name='merge')],
